@@ -165,6 +165,7 @@ int parse_instruction_6502(AsmContext *asm_context, char *instr)
   int num;
   int size;
   int bytes;
+  int have_operand = 0;
   int i;
 
   // make lowercase
@@ -241,6 +242,8 @@ int parse_instruction_6502(AsmContext *asm_context, char *instr)
           return -1;
         }
 
+        have_operand = 1;
+
         if (num < -128 || num > 0xff)
         {
           print_error_range(asm_context,
@@ -260,6 +263,8 @@ int parse_instruction_6502(AsmContext *asm_context, char *instr)
         {
           return -1;
         }
+
+        have_operand = 1;
 
         if (asm_context->pass == 2)
         {
@@ -291,6 +296,8 @@ int parse_instruction_6502(AsmContext *asm_context, char *instr)
           return -1;
         }
 
+        have_operand = 1;
+
         if (num < -128 || num > 0xff)
         {
           print_error_range(asm_context,
@@ -309,6 +316,8 @@ int parse_instruction_6502(AsmContext *asm_context, char *instr)
         {
           return -1;
         }
+
+        have_operand = 1;
 
         if (GET_TOKEN() == TOKEN_EOL) { break; }
 
@@ -385,6 +394,8 @@ int parse_instruction_6502(AsmContext *asm_context, char *instr)
         {
           return -1;
         }
+
+        have_operand = 1;
 
         if (num < 0 || num > 0xffff)
         {
@@ -496,6 +507,14 @@ int parse_instruction_6502(AsmContext *asm_context, char *instr)
         }
       }
     }
+  }
+
+  // An addressing mode with operand bytes needs an operand: num is not
+  // set without one ("bne", "lda #", "rmb0").
+  if (op_bytes[op] > 1 && have_operand == 0)
+  {
+    print_error_opcount(asm_context, instr);
+    return -1;
   }
 
   // find opcode in table
